@@ -13,7 +13,7 @@ ctest --test-dir $bd -j6 --timeout 900 > $bd.ctest.log 2>&1
   echo "patch: $out/patch.diff"
   grep -c "warning:" $bd.build.log | sed 's/^/build warnings: /'
   grep -E "tests passed|tests failed" $bd.ctest.log
-  grep -E "\*\*\*Failed|Failed  " $bd.ctest.log | head
+  grep -E "\*\*\*|Failed  |Timeout" $bd.ctest.log | head
 } > $out/confirm.txt
 git checkout -q -- .
 rm -rf $bd $bd.build.log $bd.ctest.log
